@@ -12,6 +12,7 @@ package bookkeeping
 //        regime; a proposal with delay 0 is out of range there), A.ApprovedUpgrades = {} | {B:1} | {B:2}
 //   w02: Min=0 Max=2 Default=1, A.ApprovedUpgrades = {B:0} (the only way to reach the documented
 //        "delay 0 means DefaultUpgradeWaitRounds" rule)
+//   w00: Min=0 Max=2 Default=0, A.ApprovedUpgrades = {B:0}: the switch round coincides with the vote deadline
 // B has the same vote parameters and no approved upgrade.
 //
 // Alphabet per round (18 ops, all tried in every reached state, so "propose while pending",
@@ -553,7 +554,7 @@ func c26ops(c *c26cfg) []c26op {
 
 func TestVerif_C26(t *testing.T) {
 	r := ve.NewRun("C26", "model_checking")
-	r.Assume("vote parameters fixed to UpgradeVoteRounds=3, UpgradeThreshold=2 and wait regimes (Min,Max,Default) in {(1,2,2),(0,2,1)}; the upgrade logic reads no other parameter")
+	r.Assume("vote parameters fixed to UpgradeVoteRounds=3, UpgradeThreshold=2 and wait regimes (Min,Max,Default) in {(1,2,2),(0,2,1),(0,2,0)}; the upgrade logic reads no other parameter")
 	r.Assume("a proposal counts as pending up to and including the round that resolves it (deadline round p+3 when it failed, switch round when it passed): a new proposal in that round is illegal")
 	r.Assume("the relative-key pass merges states that differ only by a shift of all rounds (applyUpgradeVote compares r with stored rounds only); the absolute-key pass does not rely on this")
 
@@ -588,6 +589,9 @@ func TestVerif_C26(t *testing.T) {
 		mk("w12-B1", 1, 2, 2, map[string]uint64{"B": 1}),
 		mk("w12-B2", 1, 2, 2, map[string]uint64{"B": 2}),
 		mk("w02-B0", 0, 2, 1, map[string]uint64{"B": 0}),
+		// zero effective wait: delay 0 and default 0 put the switch round ON the vote deadline, so the
+		// "failed proposal is cleared" and "switch" rules meet in one round
+		mk("w00-B0", 0, 2, 0, map[string]uint64{"B": 0}),
 	}
 	defer func() {
 		for _, c := range cfgs {
